@@ -25,6 +25,7 @@ type evalCtx struct {
 	atReturn   bool
 	inTrigger  bool
 	assumeMode bool
+	qnames     map[string]bool // SMT names of the enclosing quantifiers' variables (a macro body may reuse a source name)
 }
 
 func (ec *evalCtx) fail(format string, args ...any) {
@@ -273,14 +274,26 @@ func (ec *evalCtx) eval(e spec.Expr) Val {
 	case *spec.Quant:
 		n := ec
 		var vars []*smt.Term
+		used := map[string]bool{}
+		for k := range ec.qnames {
+			used[k] = true
+		}
 		for _, p := range x.Vars {
-			bv := smt.Const(p.Name+"!q", specSort(p.Type))
+			qn := p.Name + "!q"
+			for k := 1; used[qn]; k++ {
+				qn = fmt.Sprintf("%s!q%d", p.Name, k)
+			}
+			used[qn] = true
+			bv := smt.Const(qn, specSort(p.Type))
 			vars = append(vars, bv)
 			if gt := fc.P.goTypeByName(p.Type); gt != nil {
 				n = n.with(p.Name, fc.fromTerm(bv, gt))
 			} else {
 				n = n.with(p.Name, Val{T: bv})
 			}
+		}
+		if n != ec {
+			n.qnames = used
 		}
 		body := n.boolean(x.Body)
 		var trigs [][]*smt.Term
@@ -531,7 +544,7 @@ func (ec *evalCtx) callSpec(x *spec.Call) Val {
 			}
 		}
 		if v.Loc == nil || v.GoT == nil {
-			ec.fail("deref of a non-pointer in %s", x)
+			ec.fail("deref of a non-pointer in %s (value %s, type %v)", x, v, v.GoT)
 		}
 		elem := v.GoT.Underlying().(*types.Pointer).Elem()
 		return fc.loadLoc(ec.cur, v.Loc, elem, smt.True, "spec")
@@ -617,6 +630,42 @@ func (ec *evalCtx) callSpec(x *spec.Call) Val {
 			}
 		}
 		return Val{T: smt.True}
+	case "nolit":
+		// nolit(e, "s"): no string literal that the value of e is built from (by
+		// concatenation, along any path) contains s - decided statically on the
+		// term of e; pieces that are not literals are not constrained
+		v := ec.eval(x.Args[0])
+		want := x.Args[1].(*spec.StrLit).Val
+		if v.T == nil {
+			return Val{T: smt.False}
+		}
+		seen := map[*smt.Term]bool{}
+		var walk func(t *smt.Term, depth int) bool
+		walk = func(t *smt.Term, depth int) bool {
+			if seen[t] || depth > 64 {
+				return true
+			}
+			seen[t] = true
+			if lit, isLit := fc.literalOf(t); isLit {
+				return !strings.Contains(lit, want)
+			}
+			if len(t.Args) == 0 {
+				if d, ok := fc.S.Defs[t.Op]; ok {
+					return walk(d, depth+1)
+				}
+				return true
+			}
+			for _, a := range t.Args {
+				if !walk(a, depth+1) {
+					return false
+				}
+			}
+			return true
+		}
+		if walk(v.T, 0) {
+			return Val{T: smt.True}
+		}
+		return Val{T: smt.False}
 	case "vlit", "vprefix", "vstr", "vcount":
 		// the elements of a ...any argument built at this call site:
 		// vlit(v, i, "text"): element i is the string "text" (decided statically for literals);
